@@ -317,7 +317,6 @@ Section WithOracle.
   Qed.
 
   Hypothesis Hsfx : parser_keeps_suffix pmt.
-  Hypothesis Hacc : parser_accepts_suffixed pmt.
 
   Lemma dec_classify_of_suffix sfx k m :
     (sfx = sfx_json /\ k = KJson) \/ (sfx = sfx_xml /\ k = KXml) -> has_suffix sfx m = true -> dec_classify m = k.
@@ -348,11 +347,12 @@ Section WithOracle.
   Lemma decoder_of_set h ct k :
     h <> [] -> ((ct = app_json /\ k = KJson) \/ (ct = app_xml /\ k = KXml)) ->
     (contains_semicolon h = false \/ (field_safe h = true /\ pmt h <> None)) ->
+    (contains_semicolon h = true -> parser_accepts_suffixed pmt) ->
     response_decoder pmt (set_content_type h ct) = k.
   Proof.
-    intros Hne Hct Hok.
+    intros Hne Hct Hok Hacc0.
     assert (Hacc' : contains_semicolon h = true -> pmt (set_content_type h ct) <> None).
-    { intro C. destruct Hok as [Hs|[Hsafe Hp]]; [congruence|].
+    { intro C. pose proof (Hacc0 C) as Hacc. destruct Hok as [Hs|[Hsafe Hp]]; [congruence|].
       destruct (pmt h) as [m0|] eqn:P0; [|contradiction].
       destruct (Hacc h m0 Hsafe C P0) as [AJ AX]. destruct Hct as [[-> _]|[-> _]]; assumption. }
     destruct (set_content_type_cases h ct) as [(E & _)|[(_ & N1 & N2 & _)|(_ & sfx & Hs & Hr)]].
@@ -391,15 +391,16 @@ Section WithOracle.
 
   Lemma roundtrip_preset accept ct preset k hdr :
     response_encoder pmt pmt_err_mt accept ct preset = (Some k, hdr) ->
-    preset_ok pmt k preset -> response_decoder pmt hdr = k.
+    preset_ok pmt k preset -> (contains_semicolon preset = true -> parser_accepts_suffixed pmt) ->
+    response_decoder pmt hdr = k.
   Proof.
-    intros H Hok. apply chosen_inv in H as (mt & -> & Hk & Hn).
+    intros H Hok Hacc0. apply chosen_inv in H as (mt & -> & Hk & Hn).
     destruct (set_content_type_cases preset mt) as [(_ & E)|[(_ & _ & _ & E)|(Hne & sfx & Hs & _)]].
     - simpl in E. rewrite E. now apply decoder_of_chosen.
     - simpl in E. rewrite E. now apply decoder_of_chosen.
     - assert (Hct : (mt = app_json /\ k = KJson) \/ (mt = app_xml /\ k = KXml)).
       { destruct Hs as [[-> _]|[-> _]]; vm_compute in Hk; auto. }
-      apply decoder_of_set; [exact Hne|exact Hct|].
+      apply decoder_of_set; [exact Hne|exact Hct| |exact Hacc0].
       unfold preset_ok in Hok. destruct Hct as [[_ ->]|[_ ->]]; destruct Hok as [E|[E|E]]; auto; contradiction.
   Qed.
 
@@ -652,7 +653,7 @@ Lemma roundtrip_preset_params pmt errmt :
     response_encoder pmt errmt accept ct preset = (Some k, hdr) -> response_decoder pmt hdr = k.
 Proof.
   intros Hs Hf Hk Ha accept ct preset k hdr Hsafe Hn H.
-  apply (roundtrip_preset pmt errmt Hs Hf Hk Ha accept ct preset k hdr H).
+  apply (roundtrip_preset pmt errmt Hs Hf Hk accept ct preset k hdr H); [|intros _; exact Ha].
   destruct k; simpl; auto 6.
 Qed.
 
@@ -760,12 +761,12 @@ Qed.
 
 (* a pre-set header without parameters round trips whatever '+' suffix it carries *)
 Lemma roundtrip_preset_no_params pmt errmt :
-  parser_stable pmt -> parser_fixes_supported pmt -> parser_keeps_suffix pmt -> parser_accepts_suffixed pmt ->
+  parser_stable pmt -> parser_fixes_supported pmt -> parser_keeps_suffix pmt ->
   forall accept ct preset k hdr,
     contains_semicolon preset = false ->
     response_encoder pmt errmt accept ct preset = (Some k, hdr) -> response_decoder pmt hdr = k.
 Proof.
-  intros Hs Hf Hk Ha accept ct preset k hdr Hc H.
-  apply (roundtrip_preset pmt errmt Hs Hf Hk Ha accept ct preset k hdr H).
+  intros Hs Hf Hk accept ct preset k hdr Hc H.
+  apply (roundtrip_preset pmt errmt Hs Hf Hk accept ct preset k hdr H); [|congruence].
   destruct k; simpl; auto.
 Qed.
